@@ -151,7 +151,14 @@ func evalFlatten(c *Case) *Verdict {
 				if !cyclic {
 					var refs []string
 					pv, _ := parseJSON(o.Out)
-					blindRefs(pv, &refs)
+					if pr, ok := asObj(pv); ok {
+						// vendor extensions at the top level are opaque data, not part of the API description
+						for _, k := range sortedKeys(pr) {
+							if !strings.HasPrefix(k, "x-") {
+								blindRefs(pr[k], &refs)
+							}
+						}
+					}
 					if len(refs) > 0 {
 						v.fail("C05", "expand-ref-left-in-acyclic-bundle", "", fmt.Sprintf("schedule %d: acyclic bundle, but $ref %q remains", si, refs[0]))
 					}
